@@ -61,7 +61,8 @@ def leaf_filter_matches():
     names = ['/abs/dir/foo', '/abs/dir/Foo', '/abs/dir/FOO', '/abs/other/foo',
              '/abs/dir/foo.o', '/abs/dir/boo', '/abs/dir/a[b', '/abs/dir/fo',
              '/abs/dir/foobar', '/abs/dir/a*b', '/abs/dir/axb', '/x.bak/y',
-             '/abs/dir/f', '/foo', 'rel/foo', '/abs/dir.o/f']
+             '/abs/dir/f', '/foo', 'rel/foo', '/abs/dir.o/f', '/abs/dir/[fF]oo',
+             '/abs/dir/[!f]oo', '/abs/dir/?oo', '/abs/dir/f*', '/abs/dir/*[*']
     for pat in pats:
         f = Filter(pat)
         for nm in names:
@@ -521,7 +522,32 @@ def leaf_parse_indexes():
     return n, problems
 
 
+def leaf_scope():
+    from trashcli.restore.trashed_file import TrashedFile
+    problems = []
+    n = 0
+    locs = ['/a/foo', '/a/foo/x', '/a/foobar/y', '/a/foobar', '/a/Miles [1959]/x',
+            '/a/M/x', '/a/1/x', '/a/9/x', '/', '/a', '/a/foo/x/y', '/a/fo', '/a/*/x',
+            '/a/?/x']
+    paths = ['/', '/a', '/a/foo', '/a/foobar', '/a/Miles [1959]', '/a/fo', '/a/foo/x',
+             '/a/*', '/a/?', '/a/[1-5]', '/b']
+    for loc in locs:
+        for p in paths:
+            n += 1
+            want = p == '/' or loc == p or loc.startswith(p + '/')
+            tf = TrashedFile(loc, None, '/i/x.trashinfo', '/f/x')
+            try:
+                got = tf.original_location_matches_path(p)
+            except Exception as e:
+                got = 'raised %r' % (e,)
+            if got != want:
+                problems.append('entry %r %s beneath %r: %r' % (
+                    loc, 'is' if want else 'is not', p, got))
+    return n, problems
+
+
 LEAVES = {
+    'scope': leaf_scope,
     'path_of_backup_copy': leaf_path_of_backup_copy,
     'filter_matches': leaf_filter_matches,
     'removers': leaf_removers,
